@@ -32,8 +32,7 @@ pub fn spec() -> HistSpec {
         excluder,
         fixed_cases,
         label_floors: vec![("range-bound-outside-or-between", 200), ("xdel-tail", 50), ("xtrim-evicted", 50), ("xadd-id-refused", 100), ("range-count", 100), ("xread-data", 50)],
-        pre_phase: None,
-        pre_replay: None,
         assumptions: vec!["entry fields compare as maps", "XREAD with no data may answer nil or an empty array", "only complete IDs (ms-seq) are generated"],
+        ..Default::default()
     }
 }
